@@ -164,7 +164,7 @@ def run(ctx):
     try:
         for fx in FIXTURES:
             fj = fx.to_json()
-            mc = 3 if ctx.quick else (4 if len(fx.rows) > 4 else 7)
+            mc = 3 if ctx.quick else (4 if len(fx.rows) > 4 else 5)
             inv = ["ExactlyOnce", "HolderComplete", "SelectedOk", "ExportCase"]
             r = ctx.tlc("ScoreSelect", tlc.cfg(constants={"MaxChunks": mc, "ScoreLevels": {0, 1, 2}, "Export": False}, invariants=inv),
                         note="fixture %s, n_chunks<=%d, 3 score levels, every batch/order/allowed set" % (fx.name, mc),
